@@ -679,14 +679,15 @@ func (t *tree) parseMsgRawText(node *ast.RawTextNode) []ast.Node {
 			start, end = ii[0], ii[1]
 		}
 
+		// every piece keeps the position of the text it was cut from: offsets
+		// within the (normalised) text are not offsets in the file, and adding
+		// them led past the end of the file.
 		if start > 0 {
 			r = append(r, &ast.RawTextNode{pos, txt[:start]})
-			pos += ast.Pos(start)
 		}
 
 		if end > start {
 			r = append(r, &ast.MsgPlaceholderNode{pos, "", &ast.MsgHtmlTagNode{pos, txt[start:end]}})
-			pos += ast.Pos(end - start)
 		}
 
 		txt = txt[end:]
